@@ -49,6 +49,10 @@ func (c ChiSquared) LogProb(x float64) float64 {
 		return math.Inf(-1)
 	}
 	lg, _ := math.Lgamma(c.K / 2)
+	if c.K == 2 {
+		// Avoid 0*log(0) at x == 0.
+		return -x/2 - (c.K/2)*math.Ln2 - lg
+	}
 	return (c.K/2-1)*math.Log(x) - x/2 - (c.K/2)*math.Ln2 - lg
 }
 
